@@ -379,6 +379,47 @@ def closure_plain(outer, inner):
     return plain
 
 
+def escaping_classes(program, rep, rule, f):
+    """A class generated inside a call and kept for later calls (stored in a
+    module-level or instance container) must not read the parameters of the
+    call that generated it: every later instance would be filled from the
+    first map that had that layout."""
+    params = set(f.params())
+    for cd in [n for n in ast.walk(f.node) if isinstance(n, ast.ClassDef)]:
+        kept = [n for n in ast.walk(f.node) if isinstance(n, ast.Assign)
+                and isinstance(n.value, ast.Name) and n.value.id == cd.name
+                and any(isinstance(t, ast.Subscript) or (isinstance(
+                    t, ast.Attribute)) for t in n.targets)] + [
+            n for n in ast.walk(f.node) if isinstance(n, ast.Call)
+            and isinstance(n.func, ast.Attribute) and n.func.attr in (
+                'setdefault', 'append', 'add') and any(
+                    isinstance(a, ast.Name) and a.id == cd.name
+                    for a in n.args)]
+        if not kept:
+            continue
+        for m in [n for n in cd.body if isinstance(n, ast.FunctionDef)]:
+            own = {a.arg for a in m.args.posonlyargs + m.args.args
+                   + m.args.kwonlyargs} | {
+                x.id for x in ast.walk(m) if isinstance(x, ast.Name)
+                and isinstance(x.ctx, ast.Store)}
+            captured = sorted({x.id for x in ast.walk(m) if isinstance(
+                x, ast.Name) and isinstance(x.ctx, ast.Load)
+                and x.id in params and x.id not in own})
+            if captured:
+                rep.bad(rule, f.where, kept[0],
+                        f'the generated class {cd.name} is kept for later '
+                        f'calls ({norm(kept[0])[:60]}) while its {m.name} '
+                        f'reads `{captured[0]}` of the call that generated '
+                        'it: a snapshot built later from the kept class '
+                        'mirrors the FIRST map that had this layout - '
+                        'another map\'s handles are returned (and loaded)',
+                        line=kept[0].lineno)
+                return
+        rep.ok(rule, f.where, kept[0],
+               f'the kept class {cd.name} takes the map it mirrors as an '
+               'argument', line=kept[0].lineno)
+
+
 def check_static_build(program, rep, rule):
     """get_static_map stores the handle objects themselves under their keys
     and lists exactly the handle keys in _handle_names (path based on the
@@ -394,10 +435,28 @@ def check_static_build(program, rep, rule):
         return
     init = inits[0]
     sub = init.args.args[0].arg
+    escaping_classes(program, rep, rule, f)
+
+    owner = [c for c in ast.walk(f.node) if isinstance(c, ast.ClassDef)
+             and init in c.body]
 
     class _One(_D):
         def for_counts(self, st, node, itersym):
             return [1]
+
+        def resolve_call(self, st, call, walker):
+            # super().__init__(..) of the generated class: the in-repo base
+            fn_ = call.func
+            if isinstance(fn_, ast.Attribute) and isinstance(
+                    fn_.value, ast.Call) and dotted(fn_.value.func) \
+                    == 'super' and not fn_.value.args and owner \
+                    and len(owner[0].bases) == 1 and st.frame.depth == 0:
+                base = program.lookup_class(f.module,
+                                            dotted(owner[0].bases[0]) or '')
+                m = program.resolve_method(base, fn_.attr) if base else None
+                if m is not None and sub in st.frame.env:
+                    return m, base, st.frame.env[sub]
+            return super().resolve_call(st, call, walker)
     fi = FuncInfo(f.module, None, '__init__', init)
     w = Walker(program, _One(program))
     exits = [e for e in w.run(fi, None) if e.kind != 'raise']
